@@ -238,6 +238,12 @@ def worker_init():
     default_priority()
 
 
+def _bound_mode(case):
+    """every second case registers its odd-numbered listeners as bound methods of otherwise unreferenced objects"""
+    import zlib
+    return zlib.crc32(repr(case).encode()) % 2 == 0
+
+
 def run_impl(case):
     from clikit.api.event import Event, EventDispatcher
     d = EventDispatcher()
@@ -253,14 +259,36 @@ def run_impl(case):
         listener.__name__ = "listener_%d" % k
         return listener
 
+    import weakref
+
+    class Owner(object):
+        """a listener that is a bound method of an object NOBODY but the dispatcher keeps alive"""
+
+        def __init__(self, k, stop):
+            self.k, self.stop = k, stop
+
+        def on(self, event, event_name, dispatcher):
+            rec.append((self.k, event, event_name, dispatcher))
+            if self.stop:
+                event.stop_propagation()
+
+    owners = {}
+    bound = _bound_mode(case)
+
     def L(k):
+        if bound and k % 2 == 1:
+            o = owners[k]() if k in owners else None
+            if o is None:
+                o = Owner(k, stops.get(k, False))
+                owners[k] = weakref.ref(o)
+            return o.on
         if k not in listeners:
             listeners[k] = make(k, stops.get(k, False))
             ident[id(listeners[k])] = k
         return listeners[k]
 
     def ids(ls):
-        return [ident.get(id(x), -1) for x in ls]
+        return [x.__self__.k if isinstance(getattr(x, "__self__", None), Owner) else ident.get(id(x), -1) for x in ls]
 
     outs = []
     for o in expand(case):
